@@ -69,4 +69,84 @@ theorem qualified_iff_other_package (fromPkg toPkg name : String) :
 
 
 
+
+/-! ### from the three flag maps to the landing place (what the driver op `cliroute` computes and the C20
+    partial-mappings stream compares with the real command line) -/
+
+theorem find_assembled (pkgs outs roots : List (String × String)) (dP dO id : String) :
+    ∀ ids : List String, id ∈ ids →
+      (assembleAll pkgs outs roots dP dO ids).find? (fun m => m.schemaID = id) = some (assembleMapping pkgs outs roots dP dO id) := by
+  intro ids
+  induction ids with
+  | nil => intro h; cases h
+  | cons a rest ih =>
+    intro h
+    simp only [assembleAll, List.map_cons]
+    by_cases e : a = id
+    · subst e; simp [List.find?, assembleMapping]
+    · have hin : id ∈ rest := by
+        rcases List.mem_cons.mp h with h | h
+        · exact absurd h.symm e
+        · exact h
+      have : (assembleMapping pkgs outs roots dP dO a).schemaID ≠ id := by simpa [assembleMapping] using e
+      rw [List.find?_cons_of_neg (by simpa using this)]
+      exact ih hin
+
+theorem find_unassembled (pkgs outs roots : List (String × String)) (dP dO id : String) :
+    ∀ ids : List String, id ∉ ids →
+      (assembleAll pkgs outs roots dP dO ids).find? (fun m => m.schemaID = id) = none := by
+  intro ids h
+  rw [List.find?_eq_none]
+  intro m hm
+  simp only [assembleAll, List.mem_map] at hm
+  obtain ⟨a, ha, rfl⟩ := hm
+  simp only [assembleMapping]
+  intro e
+  have e' : a = id := of_decide_eq_true e
+  subst e'; exact h ha
+
+/-- **where a schema lands, in terms of the flags alone** (any list of ids, in any order, with or without repeats):
+    an id no flag names goes to the defaults; an id with `--schema-output` goes to that file; an id with a package and no
+    output goes NOWHERE ("these types live elsewhere"), whatever the package is — also the default package; an id with
+    only a root type goes to the default output -/
+theorem cliroute_file (pkgs outs roots : List (String × String)) (dP dO id : String) (ids : List String) :
+    (route (assembleAll pkgs outs roots dP dO ids) dO dP id).fileName =
+      if id ∈ ids then
+        (match lookupS id outs with
+         | some o => o
+         | none => if (lookupS id pkgs).isSome then "" else dO)
+      else dO := by
+  unfold route
+  by_cases h : id ∈ ids
+  · rw [find_assembled pkgs outs roots dP dO id ids h]
+    simp only [h, ↓reduceIte, assembleMapping]
+    cases lookupS id outs <;> rfl
+  · rw [find_unassembled pkgs outs roots dP dO id ids h]; simp [h]
+
+/-- … and under which package clause -/
+theorem cliroute_pkg (pkgs outs roots : List (String × String)) (dP dO id : String) (ids : List String) :
+    (route (assembleAll pkgs outs roots dP dO ids) dO dP id).pkg =
+      if id ∈ ids then (lookupS id pkgs).getD dP else dP := by
+  unfold route
+  by_cases h : id ∈ ids
+  · rw [find_assembled pkgs outs roots dP dO id ids h]; simp [h, assembleMapping]
+  · rw [find_unassembled pkgs outs roots dP dO id ids h]; simp [h]
+
+/-- the order in which main.go's map iteration yields the ids is unobservable -/
+theorem cliroute_order_free (pkgs outs roots : List (String × String)) (dP dO id : String) (ids ids' : List String)
+    (h : ∀ x, x ∈ ids ↔ x ∈ ids') :
+    route (assembleAll pkgs outs roots dP dO ids) dO dP id = route (assembleAll pkgs outs roots dP dO ids') dO dP id := by
+  have hf := cliroute_file pkgs outs roots dP dO id
+  have hp := cliroute_pkg pkgs outs roots dP dO id
+  have e1 := hf ids; have e2 := hf ids'; have e3 := hp ids; have e4 := hp ids'
+  simp only [h id] at e1 e3
+  cases hr : route (assembleAll pkgs outs roots dP dO ids) dO dP id with
+  | mk f1 p1 =>
+    cases hr' : route (assembleAll pkgs outs roots dP dO ids') dO dP id with
+    | mk f2 p2 =>
+      rw [hr] at e1 e3; rw [hr'] at e2 e4
+      simp only at e1 e2 e3 e4
+      rw [e1, e2, e3, e4]
+
+
 end GJS.Props.C20
